@@ -282,6 +282,7 @@ def cfgs(tier):
         c(batches=((P,), (OLD1,)), icpt=("response",), feat=("stop", "seof"), maxops=6),
         c(batches=((P, P),), icpt=("error",), feat=("stop", "fail", "garbage"), maxops=5),
         c(batches=((P, OLD1, OLD1),), feat=("stop", "fail"), maxops=5),                     # the same flow queued three times
+        c(batches=((P, OLD1),), icpt=("request",), feat=("stop",), maxops=4),               # ... and held while stopped
     ]
     if tier == "thorough":
         out = [x | {"maxops": x["maxops"] + 2} for x in out]
@@ -331,11 +332,25 @@ class Check(core.PropertyCheck):
         "arrives at the fake server",
     )
 
+    PROCS = 4
+
     def mon_constants(self, tier):
         return {"Unreplayable": frozenset(UNREPLAYABLE)}
 
     def model_constants(self, tier):
         return self.mon_constants(tier) | {"MaxFlows": 3 if tier == "quick" else 4, "Cfgs": tuple(cfgs(tier))}
+
+    def model_runs(self, ctx):
+        self._extra_behs = []
+        if ctx.quick:
+            return [ctx.model_check(self.MODEL, self.model_constants("quick"), dump=True)]
+        # dumped graph: the quick classes one action deeper; the large instance gives statistics + sampled behaviours
+        mid = self.mon_constants("thorough") | {"MaxFlows": 3, "Cfgs": tuple(c | {"maxops": c["maxops"] + 1} for c in cfgs("quick"))}
+        main = ctx.model_check(self.MODEL, mid, dump=True)
+        big = ctx.model_check(self.MODEL, self.model_constants("thorough"), dump=False, tag="_big")
+        self._extra_behs, _r = ctx.simulate(self.MODEL, self.model_constants("thorough"), num=3000, depth=30, tag="big")
+        ctx.notes["big_model_simulated_behaviours"] = len(self._extra_behs)
+        return [main, big]
 
     @staticmethod
     def _scenario(beh):
@@ -354,13 +369,19 @@ class Check(core.PropertyCheck):
     def scenarios(self, ctx, models):
         g = models[0].graph
         behs = g.edge_cover(ctx.rng, max_len=40, tail=8)
-        behs += g.random_walks(ctx.rng, 300 if ctx.quick else 5000, 40)
-        for b in behs:
+        behs += g.random_walks(ctx.rng, 60 if ctx.quick else 3000, 40)
+        for b in self._extra_behs:
+            sc = self._scenario(b)
+            sc.source = "simulate"
+            yield sc
+        for i, b in enumerate(behs):
             sc = self._scenario(b)
             yield sc
-            yield core.Scenario(sc.data | {"eager": True, "lenient": True}, source="model-eager")
+            if i % 3 == 0:
+                # the same environment under asyncio.eager_task_factory (what mitmproxy's master installs): monitor only
+                yield core.Scenario(sc.data | {"eager": True, "lenient": True}, source="model-eager")
         rng = random.Random(ctx.seed + 53)
-        for _ in range(400 if ctx.quick else 8000):
+        for _ in range(300 if ctx.quick else 6000):
             yield core.Scenario(random_scenario(rng), source="random")
 
     def drift_view(self, trace):
